@@ -1,6 +1,597 @@
-//! L2s: OS-scheduled stress phases (thorough tiers of C03 C04 C14 C16).
-use crate::engine::{Accum, Ctx};
+//! L2s: OS-scheduled stress phases (C03 C04 C14 C16). Many real threads, invariant oracles.
+//! These reach interleavings inside a MemoryStore method that the baton scheduler cannot; they are
+//! probabilistic and only approximately reproducible (the saved history is the evidence).
+use crate::engine::*;
+use crate::l1::{Policy, Stack};
+use crate::spec::{Cmd, Kind};
+use crate::wire::{self, Resp};
+use bytes::BytesMut;
+use memcrs::memcache_server::handler::BinaryHandler;
+use memcrs::protocol::binary_codec::MemcacheBinaryCodec;
+use serde_json::json;
+use std::sync::atomic::{AtomicBool, AtomicU64, Ordering};
+use std::sync::{Arc, Barrier};
+use std::time::{Duration, Instant};
+use tokio_util::codec::{Decoder, Encoder};
 
-pub fn phase(_ctx: &Ctx, _acc: &Accum, _prop: &str) -> Option<i32> {
+struct Worker {
+    handler: BinaryHandler,
+    codec: MemcacheBinaryCodec,
+}
+impl Worker {
+    fn new(stack: &Stack) -> Worker {
+        Worker { handler: BinaryHandler::new(stack.memc.clone()), codec: MemcacheBinaryCodec::new(1 << 20) }
+    }
+    fn exec(&mut self, cmd: &Cmd) -> Option<Resp> {
+        let mut buf = BytesMut::from(&cmd.bytes()[..]);
+        let mut out = BytesMut::new();
+        if let Ok(Some(req)) = self.codec.decode(&mut buf) {
+            if let Some(r) = self.handler.handle_request(req) {
+                let _ = self.codec.encode(r, &mut out);
+            }
+        }
+        wire::parse_all(&out).ok().and_then(|mut v| v.pop())
+    }
+}
+
+fn violation(ctx: &Ctx, clause: &str, msg: String, detail: serde_json::Value) -> i32 {
+    let fi = FailInfo { clause: clause.to_string(), msg, signature: format!("stress:{}", clause), detail: detail.clone() };
+    report_violation(ctx, "stress", &detail, &fi);
+    EXIT_VIOLATION
+}
+
+const THREADS: usize = 16;
+
+/// C03 (i): CAS-increment loops - the final number equals the number of successful cas-sets
+fn cas_increment(ctx: &Ctx, acc: &Accum, target_ops: u64) -> Option<i32> {
+    let stack = Arc::new(Stack::new(Policy::None));
+    let mut w0 = Worker::new(&stack);
+    w0.exec(&Cmd::set(b"n", b"0", 0, 0));
+    let successes = Arc::new(AtomicU64::new(0));
+    let attempts = Arc::new(AtomicU64::new(0));
+    let per_thread = target_ops / THREADS as u64;
+    std::thread::scope(|s| {
+        for _ in 0..THREADS {
+            let stack = stack.clone();
+            let successes = successes.clone();
+            let attempts = attempts.clone();
+            s.spawn(move || {
+                let mut w = Worker::new(&stack);
+                for _ in 0..per_thread {
+                    attempts.fetch_add(1, Ordering::Relaxed);
+                    if let Some(r) = w.exec(&Cmd::get(b"n")) {
+                        if r.status != 0 {
+                            continue;
+                        }
+                        let v: u64 = std::str::from_utf8(&r.value).ok().and_then(|s| s.parse().ok()).unwrap_or(u64::MAX);
+                        let mut c = Cmd::set(b"n", (v.wrapping_add(1)).to_string().as_bytes(), 0, 0);
+                        c.cas = r.cas;
+                        if let Some(r2) = w.exec(&c) {
+                            if r2.status == 0 {
+                                successes.fetch_add(1, Ordering::Relaxed);
+                            }
+                        }
+                    }
+                }
+            });
+        }
+    });
+    let fin = w0.exec(&Cmd::get(b"n"));
+    let v: u64 = fin.as_ref().and_then(|r| std::str::from_utf8(&r.value).ok().and_then(|s| s.parse().ok())).unwrap_or(u64::MAX);
+    let succ = successes.load(Ordering::Relaxed);
+    acc.count("stress_cas_increment_attempts", attempts.load(Ordering::Relaxed));
+    acc.count("stress_cas_increment_successes", succ);
+    acc.evaluations.fetch_add(attempts.load(Ordering::Relaxed), Ordering::Relaxed);
+    if v != succ {
+        return Some(violation(
+            ctx,
+            "lost_update",
+            format!("{} threads ran read-(value,cas) / cas-set(value+1) loops: {} cas-sets were acknowledged but the final value is {} - an update was lost or applied twice", THREADS, succ, v),
+            json!({"scenario": "cas_increment", "acknowledged": succ, "final": v}),
+        ));
+    }
     None
+}
+
+/// C03 (ii): barrier-released cas-sets with one token - at most one succeeds per round
+fn same_token_rounds(ctx: &Ctx, acc: &Accum, rounds: u64) -> Option<i32> {
+    let stack = Arc::new(Stack::new(Policy::None));
+    let token = Arc::new(AtomicU64::new(0));
+    let wins = Arc::new(AtomicU64::new(0));
+    let bad_round = Arc::new(AtomicU64::new(u64::MAX));
+    let barrier = Arc::new(Barrier::new(THREADS + 1));
+    let stop = Arc::new(AtomicBool::new(false));
+    std::thread::scope(|s| {
+        for t in 0..THREADS {
+            let (stack, token, wins, barrier, stop) = (stack.clone(), token.clone(), wins.clone(), barrier.clone(), stop.clone());
+            s.spawn(move || {
+                let mut w = Worker::new(&stack);
+                loop {
+                    barrier.wait();
+                    if stop.load(Ordering::SeqCst) {
+                        return;
+                    }
+                    let mut c = Cmd::set(b"r", format!("t{}", t).as_bytes(), 0, 0);
+                    c.cas = token.load(Ordering::SeqCst);
+                    if let Some(r) = w.exec(&c) {
+                        if r.status == 0 {
+                            wins.fetch_add(1, Ordering::SeqCst);
+                        }
+                    }
+                    barrier.wait();
+                }
+            });
+        }
+        let mut w0 = Worker::new(&stack);
+        for round in 0..rounds {
+            let r = w0.exec(&Cmd::set(b"r", b"base", 0, 0)).unwrap();
+            token.store(r.cas, Ordering::SeqCst);
+            wins.store(0, Ordering::SeqCst);
+            barrier.wait();
+            barrier.wait();
+            if wins.load(Ordering::SeqCst) > 1 {
+                bad_round.store(round, Ordering::SeqCst);
+                break;
+            }
+        }
+        stop.store(true, Ordering::SeqCst);
+        barrier.wait();
+    });
+    acc.count("stress_same_token_rounds", rounds);
+    acc.evaluations.fetch_add(rounds * THREADS as u64, Ordering::Relaxed);
+    let b = bad_round.load(Ordering::SeqCst);
+    if b != u64::MAX {
+        return Some(violation(
+            ctx,
+            "two_cas_winners",
+            format!("round {}: {} of {} concurrent cas-sets carrying the same CAS token succeeded", b, wins.load(Ordering::SeqCst), THREADS),
+            json!({"scenario": "same_token_rounds", "round": b}),
+        ));
+    }
+    None
+}
+
+/// C03 (iii): a setter re-stores an expired key while getters collect the expired predecessor
+fn expired_restore(ctx: &Ctx, acc: &Accum, rounds: u64) -> Option<i32> {
+    let stack = Arc::new(Stack::new(Policy::None));
+    let barrier = Arc::new(Barrier::new(THREADS + 1));
+    let stop = Arc::new(AtomicBool::new(false));
+    let mut bad: Option<u64> = None;
+    std::thread::scope(|s| {
+        for _ in 0..THREADS - 1 {
+            let (stack, barrier, stop) = (stack.clone(), barrier.clone(), stop.clone());
+            s.spawn(move || {
+                let mut w = Worker::new(&stack);
+                loop {
+                    barrier.wait();
+                    if stop.load(Ordering::SeqCst) {
+                        return;
+                    }
+                    for _ in 0..3 {
+                        w.exec(&Cmd::get(b"e"));
+                    }
+                    barrier.wait();
+                }
+            });
+        }
+        {
+            // the setter
+            let (stack, barrier, stop) = (stack.clone(), barrier.clone(), stop.clone());
+            s.spawn(move || {
+                let mut w = Worker::new(&stack);
+                loop {
+                    barrier.wait();
+                    if stop.load(Ordering::SeqCst) {
+                        return;
+                    }
+                    w.exec(&Cmd::set(b"e", b"fresh", 7, 0));
+                    barrier.wait();
+                }
+            });
+        }
+        let mut w0 = Worker::new(&stack);
+        for round in 0..rounds {
+            w0.exec(&Cmd::set(b"e", b"stale", 1, 1));
+            stack.timer.add(5);
+            barrier.wait();
+            barrier.wait();
+            let r = w0.exec(&Cmd::get(b"e"));
+            if r.as_ref().map(|r| r.status != 0 || r.value != b"fresh").unwrap_or(true) {
+                bad = Some(round);
+                break;
+            }
+        }
+        stop.store(true, Ordering::SeqCst);
+        barrier.wait();
+    });
+    acc.count("stress_expired_restore_rounds", rounds);
+    acc.evaluations.fetch_add(rounds, Ordering::Relaxed);
+    if let Some(b) = bad {
+        return Some(violation(
+            ctx,
+            "acknowledged_store_undone",
+            format!("round {}: a set over an expired item was acknowledged while {} getters were collecting the expired predecessor; afterwards the new value is gone", b, THREADS - 1),
+            json!({"scenario": "expired_restore", "round": b}),
+        ));
+    }
+    None
+}
+
+/// C03 (iv): on an absent key a CAS-store races a plain store. If both are acknowledged the plain
+/// store must be the survivor (the CAS-store can only have come first); a CAS-store that finds the
+/// plain store's item must be refused.
+fn absent_cas_vs_plain(ctx: &Ctx, acc: &Accum, rounds: u64) -> Option<i32> {
+    let stack = Arc::new(Stack::new(Policy::None));
+    let go = Arc::new(AtomicU64::new(0));
+    let done = Arc::new(AtomicU64::new(0));
+    let res: Arc<Vec<AtomicU64>> = Arc::new((0..2).map(|_| AtomicU64::new(0)).collect());
+    let stop = Arc::new(AtomicBool::new(false));
+    let mut bad: Option<(u64, String)> = None;
+    std::thread::scope(|s| {
+        for t in 0..2usize {
+            let (stack, go, done, res, stop) = (stack.clone(), go.clone(), done.clone(), res.clone(), stop.clone());
+            s.spawn(move || {
+                let mut w = Worker::new(&stack);
+                let mut round = 0u64;
+                loop {
+                    round += 1;
+                    if stop.load(Ordering::SeqCst) {
+                        return;
+                    }
+                    while go.load(Ordering::Acquire) < round {
+                        if stop.load(Ordering::Relaxed) {
+                            return;
+                        }
+                        std::hint::spin_loop();
+                    }
+                    let mut c = Cmd::set(b"z", if t == 0 { b"from-cas-store" } else { b"from-plain-store" }, t as u32, 0);
+                    if t == 0 {
+                        c.cas = 0x00c0_ffee;
+                    }
+                    let st = w.exec(&c).map(|r| r.status as u64).unwrap_or(99);
+                    res[t].store(st, Ordering::Release);
+                    done.fetch_add(1, Ordering::AcqRel);
+                }
+            });
+        }
+        let mut w0 = Worker::new(&stack);
+        for round in 1..=rounds {
+            w0.exec(&Cmd::new(Kind::Delete, b"z"));
+            done.store(0, Ordering::Release);
+            go.store(round, Ordering::Release);
+            while done.load(Ordering::Acquire) < 2 {
+                std::hint::spin_loop();
+            }
+            let (a, b) = (res[0].load(Ordering::Acquire), res[1].load(Ordering::Acquire));
+            let fin = w0.exec(&Cmd::get(b"z"));
+            let v = fin.as_ref().map(|r| r.value.clone()).unwrap_or_default();
+            // plain store always succeeds; if the cas-store also succeeded it must have come first
+            let ok = b == 0 && ((a == 0 && v == b"from-plain-store") || (a != 0 && v == b"from-plain-store"));
+            if !ok {
+                bad = Some((round, format!("cas-store status {:#x}, plain store status {:#x}, final value {:?}", a, b, String::from_utf8_lossy(&v))));
+                break;
+            }
+        }
+        stop.store(true, Ordering::SeqCst);
+    });
+    acc.count("stress_absent_cas_vs_plain_rounds", rounds);
+    acc.evaluations.fetch_add(rounds, Ordering::Relaxed);
+    if let Some((round, what)) = bad {
+        return Some(violation(
+            ctx,
+            "cas_store_overwrote_plain_store",
+            format!("round {}: on an absent key a CAS-store raced a plain store: {} - no one-at-a-time order gives this (an acknowledged plain store must survive a CAS-store that cannot match it)", round, what),
+            json!({"scenario": "absent_cas_vs_plain", "round": round}),
+        ));
+    }
+    None
+}
+
+/// C04: concurrent incr (sum + distinct results), appends (all fragments once), add race (one winner)
+fn rmw(ctx: &Ctx, acc: &Accum, per_thread: u64, add_rounds: u64) -> Option<i32> {
+    let stack = Arc::new(Stack::new(Policy::None));
+    let mut w0 = Worker::new(&stack);
+    w0.exec(&Cmd::set(b"c", b"0", 3, 0));
+    w0.exec(&Cmd::set(b"l", b"", 4, 0));
+    let results: Vec<Vec<u64>> = std::thread::scope(|s| {
+        let hs: Vec<_> = (0..THREADS)
+            .map(|t| {
+                let stack = stack.clone();
+                s.spawn(move || {
+                    let mut w = Worker::new(&stack);
+                    let mut seen = Vec::with_capacity(per_thread as usize);
+                    for i in 0..per_thread {
+                        let mut c = Cmd::new(Kind::Incr, b"c");
+                        c.delta = 3;
+                        if let Some(r) = w.exec(&c) {
+                            if r.status == 0 && r.value.len() == 8 {
+                                let mut b = [0u8; 8];
+                                b.copy_from_slice(&r.value);
+                                seen.push(u64::from_be_bytes(b));
+                            }
+                        }
+                        if i < 200 {
+                            let mut a = Cmd::new(Kind::Append, b"l");
+                            a.value = format!("[{}.{}]", t, i).into_bytes();
+                            w.exec(&a);
+                        }
+                    }
+                    seen
+                })
+            })
+            .collect();
+        hs.into_iter().map(|h| h.join().unwrap()).collect()
+    });
+    let total_ops = THREADS as u64 * per_thread;
+    acc.count("stress_incr_ops", total_ops);
+    acc.evaluations.fetch_add(total_ops, Ordering::Relaxed);
+    let fin = w0.exec(&Cmd::get(b"c"));
+    let v: u64 = fin.as_ref().and_then(|r| std::str::from_utf8(&r.value).ok().and_then(|s| s.parse().ok())).unwrap_or(u64::MAX);
+    let mut all: Vec<u64> = results.iter().flatten().cloned().collect();
+    let n = all.len() as u64;
+    all.sort();
+    all.dedup();
+    if v != 3 * total_ops || n != total_ops || all.len() as u64 != total_ops {
+        return Some(violation(
+            ctx,
+            "increments_lost",
+            format!(
+                "{} threads x {} incr by 3: {} acknowledged, {} distinct returned values, final counter {} (expected {})",
+                THREADS,
+                per_thread,
+                n,
+                all.len(),
+                v,
+                3 * total_ops
+            ),
+            json!({"scenario": "incr", "final": v, "expected": 3 * total_ops}),
+        ));
+    }
+    if fin.as_ref().and_then(|r| r.flags()) != Some(3) {
+        return Some(violation(ctx, "flags_lost", "the counter lost its flags under concurrent increments".into(), json!({"scenario": "incr"})));
+    }
+    let log = w0.exec(&Cmd::get(b"l")).map(|r| r.value).unwrap_or_default();
+    let text = String::from_utf8_lossy(&log).to_string();
+    let appended = per_thread.min(200);
+    for t in 0..THREADS {
+        for i in 0..appended {
+            let tag = format!("[{}.{}]", t, i);
+            if text.matches(&tag).count() != 1 {
+                return Some(violation(
+                    ctx,
+                    "append_lost",
+                    format!("fragment {} appears {} times in the final value after concurrent appends", tag, text.matches(&tag).count()),
+                    json!({"scenario": "append", "tag": tag}),
+                ));
+            }
+        }
+    }
+    // add races: exactly one winner per round
+    let barrier = Arc::new(Barrier::new(THREADS + 1));
+    let stop = Arc::new(AtomicBool::new(false));
+    let wins = Arc::new(AtomicU64::new(0));
+    let mut bad: Option<(u64, u64)> = None;
+    std::thread::scope(|s| {
+        for t in 0..THREADS {
+            let (stack, barrier, stop, wins) = (stack.clone(), barrier.clone(), stop.clone(), wins.clone());
+            s.spawn(move || {
+                let mut w = Worker::new(&stack);
+                loop {
+                    barrier.wait();
+                    if stop.load(Ordering::SeqCst) {
+                        return;
+                    }
+                    let mut c = Cmd::set(b"a", format!("w{}", t).as_bytes(), 0, 0);
+                    c.kind = Kind::Add;
+                    if let Some(r) = w.exec(&c) {
+                        if r.status == 0 {
+                            wins.fetch_add(1, Ordering::SeqCst);
+                        }
+                    }
+                    barrier.wait();
+                }
+            });
+        }
+        let mut w1 = Worker::new(&stack);
+        for round in 0..add_rounds {
+            w1.exec(&Cmd::new(Kind::Delete, b"a"));
+            wins.store(0, Ordering::SeqCst);
+            barrier.wait();
+            barrier.wait();
+            let wv = wins.load(Ordering::SeqCst);
+            if wv != 1 {
+                bad = Some((round, wv));
+                break;
+            }
+        }
+        stop.store(true, Ordering::SeqCst);
+        barrier.wait();
+    });
+    acc.count("stress_add_rounds", add_rounds);
+    if let Some((round, wv)) = bad {
+        return Some(violation(
+            ctx,
+            "add_winners",
+            format!("round {}: {} of {} concurrent adds of an absent key succeeded (exactly one must)", round, wv, THREADS),
+            json!({"scenario": "add_race", "round": round}),
+        ));
+    }
+    None
+}
+
+/// C16: mixed workload with flush and eviction under a progress monitor
+fn progress(ctx: &Ctx, acc: &Accum, secs: u64) -> Option<i32> {
+    let stack = Arc::new(Stack::new(Policy::Random(4000)));
+    let counters: Arc<Vec<AtomicU64>> = Arc::new((0..THREADS).map(|_| AtomicU64::new(0)).collect());
+    let stop = Arc::new(AtomicBool::new(false));
+    let done = Arc::new(AtomicU64::new(0));
+    for t in 0..THREADS {
+        let (stack, counters, stop, done) = (stack.clone(), counters.clone(), stop.clone(), done.clone());
+        // plain threads: a deadlocked worker must not block the harness
+        std::thread::spawn(move || {
+            let mut w = Worker::new(&stack);
+            let mut x: u64 = 0x9e37 + t as u64;
+            while !stop.load(Ordering::Relaxed) {
+                x ^= x << 13;
+                x ^= x >> 7;
+                x ^= x << 17;
+                let key = format!("k{}", x % 40).into_bytes();
+                let cmd = match x % 17 {
+                    0 => {
+                        let mut c = Cmd::new(Kind::Flush, &[]);
+                        c.ttl = if x % 2 == 0 { 0 } else { 3 };
+                        c
+                    }
+                    1 | 2 => Cmd::new(Kind::Delete, &key),
+                    3 | 4 | 5 => Cmd::get(&key),
+                    6 => {
+                        let mut c = Cmd::new(Kind::Incr, &key);
+                        c.delta = 1;
+                        c
+                    }
+                    7 => {
+                        let mut c = Cmd::new(Kind::Append, &key);
+                        c.value = b"+".to_vec();
+                        c
+                    }
+                    8 => {
+                        let mut c = Cmd::set(&key, b"x", 0, 0);
+                        c.kind = Kind::Add;
+                        c
+                    }
+                    _ => Cmd::set(&key, &vec![b'v'; (x % 300) as usize], 0, if x % 5 == 0 { 1 } else { 0 }),
+                };
+                w.exec(&cmd);
+                if x % 1000 == 0 {
+                    stack.timer.add(1);
+                }
+                counters[t].fetch_add(1, Ordering::Relaxed);
+            }
+            done.fetch_add(1, Ordering::SeqCst);
+        });
+    }
+    let t0 = Instant::now();
+    let mut last: Vec<u64> = counters.iter().map(|c| c.load(Ordering::Relaxed)).collect();
+    let mut stuck_for: Vec<u32> = vec![0; THREADS];
+    let sample_every = Duration::from_millis(if ctx.quick() { 1000 } else { 3000 });
+    while t0.elapsed() < Duration::from_secs(secs) {
+        std::thread::sleep(sample_every);
+        let now: Vec<u64> = counters.iter().map(|c| c.load(Ordering::Relaxed)).collect();
+        for i in 0..THREADS {
+            if now[i] == last[i] {
+                stuck_for[i] += 1;
+            } else {
+                stuck_for[i] = 0;
+            }
+        }
+        let stuck: Vec<usize> = (0..THREADS).filter(|i| stuck_for[*i] >= 3).collect();
+        if !stuck.is_empty() {
+            // confirm: still no progress after a further 5 s
+            std::thread::sleep(Duration::from_secs(5));
+            let later: Vec<u64> = counters.iter().map(|c| c.load(Ordering::Relaxed)).collect();
+            let still: Vec<usize> = stuck.iter().cloned().filter(|i| later[*i] == now[*i]).collect();
+            if !still.is_empty() {
+                let total: u64 = later.iter().sum();
+                acc.count("stress_progress_ops", total);
+                return Some(violation(
+                    ctx,
+                    "no_progress",
+                    format!("threads {:?} completed no command for {:?} (three samples plus a 5 s confirmation) while running a mixed workload with flush and eviction: deadlock or livelock", still, sample_every * 3 + Duration::from_secs(5)),
+                    json!({"scenario": "progress", "stuck_threads": still}),
+                ));
+            }
+        }
+        last = now;
+    }
+    stop.store(true, Ordering::SeqCst);
+    let t1 = Instant::now();
+    while done.load(Ordering::SeqCst) < THREADS as u64 && t1.elapsed() < Duration::from_secs(15) {
+        std::thread::sleep(Duration::from_millis(5));
+    }
+    let total: u64 = counters.iter().map(|c| c.load(Ordering::Relaxed)).sum();
+    acc.count("stress_progress_ops", total);
+    acc.evaluations.fetch_add(total, Ordering::Relaxed);
+    if done.load(Ordering::SeqCst) < THREADS as u64 {
+        return Some(violation(
+            ctx,
+            "no_progress",
+            format!("{} of {} worker threads did not finish their current command within 15 s after the stress run", THREADS as u64 - done.load(Ordering::SeqCst), THREADS),
+            json!({"scenario": "progress_end"}),
+        ));
+    }
+    None
+}
+
+/// C14: concurrent stores of fresh keys under eviction - bound at quiescence
+fn eviction_bound(ctx: &Ctx, acc: &Accum, rounds: u64) -> Option<i32> {
+    // limit far above what 16 threads can have in flight (16 x <= 974 bytes): with exact accounting the
+    // store is then never empty while the eviction loop runs, so the known finding K5 (stale usage
+    // subtracted from an empty store) cannot occur and the bound must hold exactly
+    let limit = 60_000u64;
+    for round in 0..rounds {
+        let stack = Arc::new(Stack::new(Policy::Random(limit)));
+        let barrier = Arc::new(Barrier::new(THREADS));
+        let sizes: Vec<usize> = (0..THREADS).map(|t| 50 + ((round as usize * 31 + t * 97) % 900)).collect();
+        let per = 150usize;
+        std::thread::scope(|s| {
+            for t in 0..THREADS {
+                let (stack, barrier) = (stack.clone(), barrier.clone());
+                let size = sizes[t];
+                s.spawn(move || {
+                    let mut w = Worker::new(&stack);
+                    barrier.wait();
+                    for i in 0..per {
+                        // fresh keys only: the accounting of the known defect D10 is exact for them
+                        let key = format!("t{}-{}", t, i).into_bytes();
+                        w.exec(&Cmd::set(&key, &vec![b'e'; size], 0, 0));
+                    }
+                });
+            }
+        });
+        let mut total = 0usize;
+        for t in 0..THREADS {
+            for i in 0..per {
+                total += stack.physical_len(format!("t{}-{}", t, i).as_bytes()).unwrap_or(0);
+            }
+        }
+        let slack: usize = sizes.iter().map(|s| s + 24).sum();
+        acc.evaluations.fetch_add((THREADS * per) as u64, Ordering::Relaxed);
+        if total as u64 > limit + slack as u64 {
+            return Some(violation(
+                ctx,
+                "concurrent_bound",
+                format!("after {} threads stored fresh keys concurrently, {} bytes are stored: more than limit {} + one record per thread ({})", THREADS, total, limit, slack),
+                json!({"scenario": "eviction_bound", "round": round, "total": total}),
+            ));
+        }
+        if let Some(u) = stack.usage() {
+            if u != total as u64 {
+                return Some(violation(
+                    ctx,
+                    "concurrent_accounting",
+                    format!("after {} threads stored fresh keys concurrently (no overwrites), the accounted usage is {} but {} bytes are stored", THREADS, u, total),
+                    json!({"scenario": "eviction_bound", "round": round, "total": total, "usage": u}),
+                ));
+            }
+        }
+    }
+    acc.count("stress_eviction_rounds", rounds);
+    None
+}
+
+pub fn phase(ctx: &Ctx, acc: &Accum, prop: &str) -> Option<i32> {
+    let t0 = Instant::now();
+    let q = ctx.quick();
+    let r = match prop {
+        "C03" => cas_increment(ctx, acc, if q { 100_000 } else { 2_000_000 })
+            .or_else(|| same_token_rounds(ctx, acc, if q { 300 } else { 5000 }))
+            .or_else(|| expired_restore(ctx, acc, if q { 300 } else { 5000 }))
+            .or_else(|| absent_cas_vs_plain(ctx, acc, if q { 60_000 } else { 1_500_000 })),
+        "C04" => rmw(ctx, acc, if q { 2_000 } else { 20_000 }, if q { 200 } else { 3000 }),
+        "C16" => progress(ctx, acc, if q { 4 } else { 30 }),
+        "C14" => eviction_bound(ctx, acc, if q { 3 } else { 60 }),
+        _ => None,
+    };
+    acc.inner.lock().unwrap().phases.push(json!({"phase": format!("os-scheduled-stress-{}", prop), "wall_s": t0.elapsed().as_secs_f64(), "threads": THREADS}));
+    r.or(Some(EXIT_OK))
 }
